@@ -14,18 +14,21 @@ What this file offers (nothing here imports a property driver; it only imports a
 * ``unwrap(agent)``              the EvolvableAlgorithm inside an AgentWrapper (or the agent itself).
 * ``slots(agent)``               ordered list of *named mutable slots* of an agent:
                                  (name, cls, ptr, fingerprint) where cls is one of
-                                   enc / head   exposed cells of a network attribute (state_dict tensors; encoder.* first)
-                                   hid          tensors held by the module tree that are NOT in state_dict
+                                   enc / head   parameters of a network attribute (encoder.* / the rest)
+                                   henc         encoder tensors held by plain torch layers that are NOT in state_dict
                                                 (detached encoder copies made by share_encoder_parameters)
-                                   cfg          mutable size lists inside init_dict (hidden_size, channel_size ...)
+                                   cfg          persistent mutable size lists inside init_dict (hidden_size, channel_size ...)
+                                   buf          registered buffers (in state_dict, not in parameters())
                                    ost          optimizer state tensors (per parameter: sorted state keys)
                                    reg          RLParameter objects of registry.hp_config
                                    book         scores / fitness / steps lists
                                    ext          other tensor / ndarray attributes of the algorithm (sigma_inv, theta_0, support ...)
                                  ptr is data_ptr()/id() (never compared across runs, only turned into partitions),
                                  fingerprint is a hash of the value.
+                                 Read-only constants (action bounds, Rainbow support, CNN sample_input, expl_noise /
+                                 mean_noise) are deliberately not slots.
 * ``structure(agent)``           per network attribute / optimizer the slot counts, architecture descriptor,
-                                 optimizer <-> parameter identity, lr values, hp values.
+                                 optimizer <-> parameter identity, lr values, hp values, scalar attributes.
 * ``snapshot(pop)``              list of per-agent dicts {"slots": [...], "struct": {...}} plus partitions helpers
                                  ``alias_classes`` / ``value_classes`` (first-occurrence numbering over the population).
 * ``registry_of(agent)``         the algorithm's actual registry (groups, optimizers, hooks, hp names) as plain data, and
@@ -142,6 +145,23 @@ def hp_config_for(algo):
     if algo not in ("PPO", "IPPO"):
         d["learn_step"] = RLParameter(min=1, max=8, dtype=int, grow_factor=1.5, shrink_factor=0.75)
     return HyperparameterConfig(**d)
+
+
+# module-level default configurations that the implementation mutates in place (known finding C01
+# faithful@dict:*:arch): restored before every case so that a case behaves as it would in a fresh process
+_GLOBAL_DEFAULTS = None
+
+
+def reset_globals():
+    global _GLOBAL_DEFAULTS
+    import agilerl.modules.multi_input as mi
+    names = [n for n in ("DefaultCnnConfig", "DefaultMlpConfig", "DefaultLstmConfig") if hasattr(mi, n)]
+    if _GLOBAL_DEFAULTS is None:
+        _GLOBAL_DEFAULTS = {n: copy.deepcopy(getattr(mi, n)) for n in names}
+    for n in names:
+        live, saved = getattr(mi, n), _GLOBAL_DEFAULTS[n]
+        if hasattr(live, "__dict__"):
+            live.__dict__.update(copy.deepcopy(saved.__dict__))
 
 
 def seed_all(seed):
